@@ -13,7 +13,7 @@
         if not chunks: chunks = (0,)
         index = slice(start, stop)
 
-   (the loop guards keep the last remaining chunk: fix of finding F20; before the fix they were
+   (the loop guards keep the last remaining chunk: fix of finding C06-F1; before the fix they were
    `start_chunk < len(chunks)` and `stop_chunk > start_chunk`.)
    The index-walking loops become structural recursion over the chunk list (front loop) and over the
    reversed remaining list (back loop): one step per loop iteration, at most len(chunks) steps each. *)
